@@ -844,6 +844,7 @@ type bodySpec struct {
 	inner *bodySpec
 	salt  int64
 	n     int // svc: index into serviceObjects; garbage: variant
+	crc   uint32 // reg / enum: constructor id
 	gzbad string // "", or how the gzip stream of this gz / gz-packed result is damaged: crc | isize | deflate
 }
 
@@ -1160,6 +1161,12 @@ func (r *run) build(b *bodySpec) ([]byte, string, string, bool) {
 			return sb.body, "garbage", "undecodable:" + sb.name, true
 		}
 		return sb.body, "upd", "update:" + sb.name, false
+	case "reg", "enum":
+		rb := regBuild(b.op, b.crc, b.n)
+		if !rb.decodes {
+			return rb.body, "garbage", "undecodable-object:" + rb.name, true
+		}
+		return rb.body, "upd", "object:" + rb.name, false
 	case "badsalt":
 		id, _, _ := r.resolve(b.ref)
 		r.saltsSent = append(r.saltsSent, b.salt)
@@ -1280,6 +1287,10 @@ func (b *bodySpec) script() string {
 		return "badmsg " + b.ref
 	case "svc", "garbage":
 		return b.op + " " + strconv.Itoa(b.n)
+	case "reg":
+		return fmt.Sprintf("reg %08x %d", b.crc, b.n)
+	case "enum":
+		return fmt.Sprintf("enum %08x", b.crc)
 	}
 	return b.op
 }
@@ -1334,6 +1345,15 @@ func parseBody(tok []string) (*bodySpec, []string) {
 		return b, tok[1:]
 	case "svc", "garbage":
 		b.n, _ = strconv.Atoi(tok[0])
+		return b, tok[1:]
+	case "reg":
+		c, _ := strconv.ParseUint(tok[0], 16, 32)
+		b.crc = uint32(c)
+		b.n, _ = strconv.Atoi(tok[1])
+		return b, tok[2:]
+	case "enum":
+		c, _ := strconv.ParseUint(tok[0], 16, 32)
+		b.crc = uint32(c)
 		return b, tok[1:]
 	case "pong", "ack", "upd":
 		return b, tok
